@@ -17,7 +17,10 @@ ecs_world! {
 fn main() {
     std::panic::set_hook(Box::new(|_| {}));
     let limit: usize = std::env::args().nth(1).map(|s| s.parse().unwrap()).unwrap_or(usize::MAX);
-    let mut world = EcsWorld::default();
+    // optional second argument: the capacity the archetype starts with (with_capacity)
+    let start: usize = std::env::args().nth(2).map(|s| s.parse().unwrap()).unwrap_or(0);
+    let mut world = if start == 0 { EcsWorld::default() } else { EcsWorld::with_capacity(EcsWorldCapacity { arch_a: start }) };
+    println!("start {} {}", start, world.archetype::<ArchA>().capacity());
     let mut first = None;
     let mut n: usize = 0;
     loop {
